@@ -10,6 +10,9 @@ for sid in sorted(os.listdir(os.path.join(V, 'seeded'))):
         continue
     r = subprocess.run([os.path.join(V, 'tools', 'seed_eval.py'), d, '--skip-confirm'], stdout=subprocess.PIPE, universal_newlines=True)
     t = r.stdout
+    if '{' not in t:
+        print('%-7s STALE: %s' % (sid, t.strip()[-160:]))
+        continue
     res = json.loads(t[t.index('{'):])
     m = json.load(open(os.path.join(d, 'meta.json')))
     m['detected_by'] = res['detected_by']
